@@ -38,7 +38,7 @@ MOD = {"U32": 2 ** 32, "U64": 2 ** 64, "U8": 2 ** 8}
 WRAPFN = {"U32": "u32", "U64": "u64"}
 LIBM_ABSTRACT = {"log": "flog", "sqrt": "fsqrt", "exp": "fexp", "pow": "fpow"}
 EXTERNAL = {"cmb_random_std_exponential", "cmb_random_std_beta", "cmb_random_std_gamma", "cmb_random_std_normal",
-            "cmb_random_exponential"}
+            "cmb_random_exponential", "cmb_random_gamma"}
 RESERVED = {"at", "from", "end", "fun", "in", "if", "then", "else", "let", "have", "show", "by", "do", "match", "with", "open",
             "local", "prefix", "instance", "where", "deriving", "structure", "class", "def", "theorem", "example", "section",
             "namespace", "variable", "universe", "import", "mutual", "private", "protected", "macro", "syntax", "notation"}
